@@ -31,6 +31,10 @@ def injected(plan: dict):
         except TypeError:
             return
         kind = plan.get(p)
+        if kind == "nowrite":
+            if any(c in mode for c in "wax+"):
+                raise OSError(28, "No space left on device", str(file))
+            return
         if kind and not any(c in mode for c in "wax+"):
             if kind == "eacces":
                 raise PermissionError(13, "Permission denied", str(file))
